@@ -335,8 +335,8 @@ def case_generator(case):
 
 
 def case_word(hist):
-    """hist = [["dim", n, seed, depth bound], [desc, exponent], ...]"""
-    _, n, seed, bound = hist[0]
+    """hist = [["dim", n, seed, depth bound, alphabet name], [desc, exponent], ...]"""
+    _, n, seed, bound, alpha = hist[0]
     from geometry_tools import hyperbolic as H
     acc = H.identity(n)
     t = 1
@@ -364,7 +364,7 @@ def case_word(hist):
     key = mkey(M) if bad is None else None
     ops = []
     if not v and len(hist) - 1 < bound:      # (no successors are needed beyond the depth bound)
-        ops = [[g, e] for g in reduced_alphabet(n, seed) for e in (1, -1)]
+        ops = [[g, e] for g in (reduced_alphabet if alpha == "reduced" else mini_alphabet)(n, seed) for e in (1, -1)]
     kinds = "+".join(sorted({nm.replace("^-1", "") for nm in names}))
     return {"v": v, "t": t + tt, "o": "%d/%s/%s" % (n, kinds, o), "nt": len(hist) > 1, "key": key, "ops": ops}
 
@@ -551,6 +551,18 @@ def reduced_alphabet(n, seed):
     return G
 
 
+def mini_alphabet(n, seed):
+    """One generator per constructor (the first of each kind in the reduced alphabet; two for the
+    Coxeter representation) - used for the deepest level in the higher dimensions."""
+    out, seen = [], {}
+    for g in reduced_alphabet(n, seed):
+        k = g[0]
+        if seen.get(k, 0) < (2 if k == "coxeter" else 1):
+            seen[k] = seen.get(k, 0) + 1
+            out.append(g)
+    return out
+
+
 # ------------------------------------------------------------------------------------------
 def run(ctx):
     q = ctx.quick
@@ -558,7 +570,7 @@ def run(ctx):
     dims = [2, 3, 4] if q else [2, 3, 4, 5]
     depth = 2 if q else 3
     ctx.rule = ("generators: every constructor named in the property over its whole alphabet (engine P, with inverse); "
-                "words: all products of <= %d generators/inverses of the reduced alphabet, explored breadth-first and "
+                "words: all products of <= %d generators/inverses of the reduced alphabet (thorough: depth 3 in H^2,H^3; depth 2 in H^4,H^5 plus depth 3 over one generator per constructor), explored breadth-first and "
                 "merged on the matrix rounded to 6 decimals (engine E). Isometry matrices are row-convention: the "
                 "invariants are M J M^T = J = M^T J M, inv() = J M^T J, distances of all ordered pairs of distinct "
                 "lattice points, class of timelike/lightlike/spacelike test vectors. Non-trivial: a word of length >= 1" % depth)
@@ -581,7 +593,18 @@ def run(ctx):
     ctx.product("generators", "checks.c02:case_generator", cases, chunk=16,
                 domains={"dimensions": dims, "constructors": sorted(set(SITE.values())),
                          "generators per dimension": {n: len(full_alphabet(n, seed, q)) for n in dims}})
-    roots = [[["dim", n, seed, depth]] for n in dims]
+    if q:
+        roots = [[["dim", n, seed, 2, "reduced"]] for n in dims]
+        bounds = {n: 2 for n in dims}
+    else:
+        # depth 3 over the reduced alphabet in H^2, H^3; depth 2 in H^4, H^5 (plus depth 3 over the mini alphabet)
+        bounds = {2: 3, 3: 3, 4: 2, 5: 2}
+        roots = [[["dim", n, seed, bounds[n], "reduced"]] for n in dims]
     ctx.bfs("cayley-graph", "checks.c02:case_word", roots, depth=depth, chunk=32,
             domains={"dimensions": dims, "reduced alphabet size": {n: len(reduced_alphabet(n, seed)) for n in dims},
-                     "exponents": [1, -1], "depth": depth})
+                     "exponents": [1, -1], "depth per dimension": bounds})
+    if not q:
+        roots = [[["dim", n, seed, 3, "mini"]] for n in (4, 5)]
+        ctx.bfs("cayley-graph-mini", "checks.c02:case_word", roots, depth=3, chunk=32,
+                domains={"dimensions": [4, 5], "alphabet": "one generator per constructor",
+                         "alphabet size": {n: len(mini_alphabet(n, seed)) for n in (4, 5)}, "exponents": [1, -1], "depth": 3})
